@@ -7,6 +7,7 @@ corruption faults before kio decodes it.
 
 from __future__ import annotations
 
+import hashlib
 import io
 
 from . import core, driver, gen, steps, streams, universe, workload
@@ -288,7 +289,9 @@ def run_task(task: dict) -> dict:
                         stats.inc(f"fault_{op[0]}")
                     stats.inc(f"source_{kind}")
                     if data != base:
-                        distinct.add((qn, data, kind))
+                        # (a digest, not the bytes: inputs with a pipelined tail or a repeated element are
+                        # tens of KiB each and a thorough task sees millions of them)
+                        distinct.add((qn, data if len(data) <= 32 else hashlib.blake2b(data, digest_size=12).digest(), kind))
                     if sig == "wall":
                         stats.inc("wall_alarms")
                         sig = confirm_wall(cls, reader, data, kind, chunks)
